@@ -20,6 +20,7 @@
 //   symm default | ignore | custom      (custom: followed by `iom <k> <k x (coef nops (dag idx)*)>` lines)
 //   iom <nterms> { <coef> <nops> { <dag> <idx> } }
 //   beta <b>
+//   truncv <eps>                         -- like trunc, but truncateBlocks(eps) is called with its default arguments (verbose report)
 //   trunc <eps>                          -- may be repeated: truncateBlocks is then called once per line, in order, on the same DensityMatrix
 //   end                                  -- end of the model part
 #ifndef PV_ED_COMMON_H
@@ -67,7 +68,8 @@ struct Scenario {
     std::vector<Operator> ioms;
     double beta, trunc;
     bool has_trunc;
-    std::vector<double> truncs;      // every `trunc` line, in order
+    std::vector<double> truncs;      // every `trunc` / `truncv` line, in order
+    std::vector<bool> trunc_default_args;   // `truncv <eps>`: truncateBlocks(eps) with the default second argument (verbose report on stdout)
     Scenario() : order_spins(false), symm("default"), beta(1.0), trunc(0.0), has_trunc(false) {}
 };
 
@@ -86,7 +88,8 @@ inline bool read_scenario(std::istream& in, Scenario& sc) {
         if (t[0] == "order_spins") sc.order_spins = atoi(t[1].c_str()) != 0;
         else if (t[0] == "symm") sc.symm = t[1];
         else if (t[0] == "beta") sc.beta = atof(t[1].c_str());
-        else if (t[0] == "trunc") { sc.trunc = atof(t[1].c_str()); sc.has_trunc = true; sc.truncs.push_back(sc.trunc); }
+        else if (t[0] == "trunc" || t[0] == "truncv") { sc.trunc = atof(t[1].c_str()); sc.has_trunc = true; sc.truncs.push_back(sc.trunc);
+                                                         sc.trunc_default_args.push_back(t[0] == "truncv"); }
         else if (t[0] == "iom") {
             Operator op;
             size_t p = 1;
@@ -198,7 +201,10 @@ struct ED {
             rho = new DensityMatrix(*S, *H, sc.beta);
             rho->prepare();
             rho->compute();
-            for (size_t ti = 0; ti < sc.truncs.size(); ++ti) rho->truncateBlocks(sc.truncs[ti], false);
+            for (size_t ti = 0; ti < sc.truncs.size(); ++ti) {
+                if (sc.trunc_default_args[ti]) rho->truncateBlocks(sc.truncs[ti]);    // as a user calls it: default arguments
+                else rho->truncateBlocks(sc.truncs[ti], false);
+            }
             if (upto == "dm") return true;
             stage = "ops";
             Ops = new FieldOperatorContainer(*Idx, *S, *H);
